@@ -11,7 +11,7 @@ import warnings
 
 from vf import ref_schema as S
 from vf import universe as U
-from vf.core import HarnessError, Tally
+from vf.core import vacuous, HarnessError, Tally
 
 LEVEL = "exploration"
 UNDEFINED = ["nonesuch", "__setstate__", "_x", "__deepcopy__", "stmtrs_", "STATUS"]
@@ -243,7 +243,9 @@ def work(chunk):
                 with warnings.catch_warnings():
                     warnings.simplefilter("ignore")
                     inst = U.build(term)
-            except Exception:
+            except Exception as e:
+                if shape in ("MIN", "MAXS"):
+                    t.fail(f"C16|{clsname}|baseline|cannot-construct-{type(e).__name__}", {"cls": clsname, "shape": shape}, f"{type(e).__name__}: {str(e)[:150]}")
                 t.count("refused-by-constructor")
                 continue
             t.count("instances")
@@ -369,23 +371,23 @@ def run(ctx):
                 seqs.append((side, seq))
     tally.merge(ctx.pmap(ofx_work, seqs))
     if tally.counts.get("lookups", 0) < 3000 or tally.counts.get("ofx-trees", 0) < 500:
-        raise HarnessError(f"vacuous: {tally.counts}")
+        vacuous(tally, f"vacuous: {tally.counts}")
     if not tally.fails:
         for o in ("proxy-ok", "absent-clean", "miss-clean", "copy-ok", "deepcopy-ok", "pickle-ok", "alias-ok", "ofx-statements-ok", "securities-ok"):
             if o not in tally.outcomes:
-                raise HarnessError(f"vacuous: {o} never observed")
+                vacuous(tally, f"vacuous: {o} never observed")
     tally.sample({"cls": "STMTTRNRS", "name": "curdef", "defined_at": "stmtrs", "expect": "getattr(inst,'curdef') is inst.stmtrs.curdef"})
     tally.sample({"ofx": ["stmt", "stmtend", "mail"], "side": "rq", "expect": "statements == [stmtrq, stmtendrq] by identity, in order"})
     cov = {
-        "evaluations": tally.counts["evaluations"],
-        "distinct_nontrivial": tally.counts["lookups"],
+        "evaluations": tally.counts.get("evaluations", 0),
+        "distinct_nontrivial": tally.counts.get("lookups", 0),
         "rule": "every class x shapes {MIN, MAXS, MAXS with each optional sub-aggregate toggled / each group switched / each repeated kind at 0,1,2,3 members"
         + (", sub-aggregates at MAXS, MAXD" if ctx.thorough else "") + "} x every name declared by exactly one non-repeated descendant aggregate and not by the class itself (must be the stored "
         "object, or a clean miss when the defining aggregate is absent) + 6 undefined names (AttributeError, hasattr False, default honoured) + copy/deepcopy/pickle (equal model) "
         "+ alias properties; OFX trees from every sequence of <=3 wrappers over 7 request / 8 response kinds: OFX.statements and each message set's statements equal the explicit "
         "walk by identity and order; OFX.securities over 0-2 lists x 0-2 securities; distinct_nontrivial = proxy look-ups",
-        "instances": tally.counts["instances"],
-        "ofx_trees": tally.counts["ofx-trees"],
+        "instances": tally.counts.get("instances", 0),
+        "ofx_trees": tally.counts.get("ofx-trees", 0),
         "exhaustive": True,
     }
     return {"tally": tally, "coverage": cov, "assumptions": ["names defined by several descendants, or shadowed by a method/property of the class (e.g. list methods), are not demanded",
